@@ -55,6 +55,12 @@ pub enum Mutation {
     MoveUp(Vec<u8>),
     /// exchange root/<e> with the host directory outside/dir
     ExchangeWithHost(Vec<u8>),
+    /// rename root/<e> to a host location whose path is longer than PATH_MAX (the kernel cannot print where it is:
+    /// `readlink(/proc/self/fd/N)` fails with ENAMETOOLONG); the host directory holds files named like tree entries
+    MoveOutDeep(Vec<u8>),
+    /// rename root/<e> into the host directory `<root> (deleted)` next to the root (the kernel's marker for unlinked
+    /// files, here part of a live name); same content as above
+    MoveToDeletedSibling(Vec<u8>),
 }
 
 impl Mutation {
@@ -66,8 +72,48 @@ impl Mutation {
             Mutation::Exchange(a, b) => format!("exchange {} {}", fmt::hex(a), fmt::hex(b)),
             Mutation::MoveUp(e) => format!("move_up {}", fmt::hex(e)),
             Mutation::ExchangeWithHost(e) => format!("exchange_with_host {}", fmt::hex(e)),
+            Mutation::MoveOutDeep(e) => format!("move_out_deep {}", fmt::hex(e)),
+            Mutation::MoveToDeletedSibling(e) => format!("move_to_deleted_sibling {}", fmt::hex(e)),
         }
     }
+}
+
+/// a host directory (created on demand) that holds a regular file for every name in `names`; `deep`: below a chain of
+/// directories that makes its path longer than PATH_MAX.  Returns a descriptor of it.
+fn host_trap_dir(top: &Path, names: &[Vec<u8>], deep: bool) -> Option<std::os::fd::OwnedFd> {
+    use std::os::fd::{AsRawFd, FromRawFd, OwnedFd};
+    let base = if deep { top.join("outside") } else { top.to_path_buf() };
+    let mut cur = unsafe { libc::open(cpath(&base).as_ptr(), libc::O_RDONLY | libc::O_DIRECTORY | libc::O_CLOEXEC) };
+    if cur < 0 {
+        return None;
+    }
+    let chain: Vec<CString> = if deep {
+        (0..18).map(|_| CString::new(vec![b'D'; 250]).unwrap()).collect()
+    } else {
+        vec![CString::new("root (deleted)").unwrap()]
+    };
+    for name in &chain {
+        unsafe { libc::mkdirat(cur, name.as_ptr(), 0o755) };
+        let next = unsafe { libc::openat(cur, name.as_ptr(), libc::O_RDONLY | libc::O_DIRECTORY | libc::O_CLOEXEC) };
+        unsafe { libc::close(cur) };
+        if next < 0 {
+            return None;
+        }
+        cur = next;
+    }
+    let dir = unsafe { OwnedFd::from_raw_fd(cur) };
+    for n in names {
+        if let Ok(c) = CString::new(n.clone()) {
+            let f = unsafe { libc::openat(dir.as_raw_fd(), c.as_ptr(), libc::O_CREAT | libc::O_WRONLY | libc::O_CLOEXEC, 0o644) };
+            if f >= 0 {
+                unsafe {
+                    libc::write(f, b"HOST".as_ptr() as *const _, 4);
+                    libc::close(f);
+                }
+            }
+        }
+    }
+    Some(dir)
 }
 
 fn cpath(p: &Path) -> CString {
@@ -101,6 +147,9 @@ struct Attacker {
     inside: std::collections::HashSet<(u64, u64)>,
     /// link bodies the library read from objects that were never inside the root
     reads_out: Rc<RefCell<Vec<String>>>,
+    /// names of the tree's entries (what the trap directories offer under the same names)
+    names: Vec<Vec<u8>>,
+    trap: Option<std::os::fd::OwnedFd>,
 }
 
 impl Attacker {
@@ -144,6 +193,17 @@ impl Attacker {
                 self.note_created(&self.top.join("outside/dir/x"));
                 exchange(&self.rootp(&e), &self.top.join("outside/dir"));
             }
+            Mutation::MoveOutDeep(e) | Mutation::MoveToDeletedSibling(e) => {
+                use std::os::fd::AsRawFd;
+                let deep = matches!(self.m, Mutation::MoveOutDeep(_));
+                if self.trap.is_none() {
+                    self.trap = host_trap_dir(&self.top, &self.names, deep);
+                }
+                if let Some(t) = &self.trap {
+                    let src = cpath(&self.rootp(&e));
+                    unsafe { libc::renameat(libc::AT_FDCWD, src.as_ptr(), t.as_raw_fd(), b"__moved\0".as_ptr() as *const _) };
+                }
+            }
         }
     }
 
@@ -167,6 +227,13 @@ impl Attacker {
             }
             Mutation::ExchangeWithHost(e) => {
                 exchange(&self.rootp(&e), &self.top.join("outside/dir"));
+            }
+            Mutation::MoveOutDeep(e) | Mutation::MoveToDeletedSibling(e) => {
+                use std::os::fd::AsRawFd;
+                if let Some(t) = &self.trap {
+                    let dst = cpath(&self.rootp(&e));
+                    unsafe { libc::renameat(t.as_raw_fd(), b"__moved\0".as_ptr() as *const _, libc::AT_FDCWD, dst.as_ptr()) };
+                }
             }
         }
     }
@@ -231,8 +298,11 @@ fn mutations_for(rng: &mut Rng, spec: &TreeSpec, op: &Op) -> Vec<Mutation> {
         v.push(Mutation::ReplaceWithHostLink(e.path.clone()));
         if matches!(e.kind, Kind::Dir) {
             v.push(Mutation::ExchangeWithHost(e.path.clone()));
+            v.push(Mutation::MoveOutDeep(e.path.clone()));
             if tree::depth(&e.path) > 1 {
                 v.push(Mutation::MoveUp(e.path.clone()));
+            } else {
+                v.push(Mutation::MoveToDeletedSibling(e.path.clone()));
             }
         } else {
             v.push(Mutation::ReplaceWithHostFileLink(e.path.clone()));
@@ -549,6 +619,19 @@ pub fn suite_attack(ctx: &mut Ctx, seed: u64, n: usize, per_case: usize) {
                         created: created.clone(),
                         inside: labels.0.keys().cloned().collect(),
                         reads_out: reads_out.clone(),
+                        names: {
+                            let mut n: Vec<Vec<u8>> = cc
+                                .spec
+                                .entries
+                                .iter()
+                                .map(|e| e.path.rsplit(|c| *c == b'/').next().unwrap_or(b"").to_vec())
+                                .filter(|n| !n.is_empty())
+                                .collect();
+                            n.sort();
+                            n.dedup();
+                            n
+                        },
+                        trap: None,
                     };
                     (Some(Box::new(a) as Box<dyn Interposer>), created, reads_out)
                 };
@@ -900,24 +983,39 @@ fn first_use_child_f(dir: &Path, fault: Option<Fault>, emulated_procfs: bool) ->
     if pid == 0 {
         unsafe { libc::close(fds[0]) };
         let ip: Option<Box<dyn Interposer>> = fault.map(|f| Box::new(Faulter(f, 0)) as Box<dyn Interposer>);
+        // the first use, with the fault; then — recorded separately, without any fault — the same lookup again: what it
+        // does must not depend on a fault the process saw earlier
         let (r, log) = ops::recorded(ip, || {
             if emulated_procfs {
                 pathrs::verif::FORCE_OPENAT2_ENOSYS.store(true, std::sync::atomic::Ordering::SeqCst);
             }
             let mut root = Root::open(dir)?;
             root.verif_set_emulated(true);
-            // two lookups: the second one shows whether a failed initialisation is retried
             let first = root.resolve("l/b/../b").map(|_| ());
-            let second = root.resolve("l/b/../b").map(|_| ());
-            Ok::<_, pathrs::error::Error>((first.map_err(|e| e.kind()), second.map_err(|e| e.kind())))
+            Ok::<_, pathrs::error::Error>((root, first.map_err(|e| e.kind())))
         });
         let line = match r {
-            Ok(Ok((a, b))) => format!(
-                "calls={} first={} second={}",
-                log.len(),
-                a.map(|_| "ok".to_string()).unwrap_or_else(|k| ops::kind_str(&k).replace(' ', ":")),
-                b.map(|_| "ok".to_string()).unwrap_or_else(|k| ops::kind_str(&k).replace(' ', ":"))
-            ),
+            Ok(Ok((root, a))) => {
+                let (r2, log2) = ops::recorded(None, || root.resolve("l/b/../b").map(|_| ()).map_err(|e| e.kind()));
+                // histogram of the kinds of calls of the second lookup
+                let mut hist: std::collections::BTreeMap<&str, usize> = std::collections::BTreeMap::new();
+                for (c, _) in &log2 {
+                    *hist.entry(c.kind).or_insert(0) += 1;
+                }
+                let sig: Vec<String> = hist.iter().map(|(k, n)| format!("{k}:{n}")).collect();
+                let b = match r2 {
+                    Ok(b) => b.map(|_| "ok".to_string()).unwrap_or_else(|k| ops::kind_str(&k).replace(' ', ":")),
+                    Err(m) => format!("PANIC:{}", fmt::hex(m.as_bytes())),
+                };
+                format!(
+                    "calls={} first={} second={} calls2={} sig2={}",
+                    log.len(),
+                    a.map(|_| "ok".to_string()).unwrap_or_else(|k| ops::kind_str(&k).replace(' ', ":")),
+                    b,
+                    log2.len(),
+                    sig.join(",")
+                )
+            }
             Ok(Err(e)) => format!("calls={} open_root_err={}", log.len(), ops::kind_str(&e.kind()).replace(' ', ":")),
             Err(m) => format!("calls={} PANIC {}", log.len(), fmt::hex(m.as_bytes())),
         };
